@@ -6,6 +6,7 @@ import (
 	"bytes"
 	"compress/gzip"
 	"context"
+	"crypto/tls"
 	"fmt"
 	"io"
 	"net"
@@ -150,6 +151,7 @@ func (c *c07Conn) Read(p []byte) (int, error) {
 // c07Peer serves scripted byte strings: the script for a connection is chosen by the request
 // path "/<n>".
 type c07Peer struct {
+	tlsLn   net.Listener // the same origin behind TLS (ALPN http/1.1 only)
 	ln      net.Listener
 	mu      sync.Mutex
 	scripts map[string]c07Script
@@ -158,6 +160,9 @@ type c07Peer struct {
 
 func (p *c07Peer) closeAll() {
 	p.ln.Close()
+	if p.tlsLn != nil {
+		p.tlsLn.Close()
+	}
 	p.mu.Lock()
 	for _, c := range p.conns {
 		c.Close()
@@ -178,6 +183,21 @@ func newC07Peer(t *testing.T) *c07Peer {
 		t.Fatalf("listen: %v", err)
 	}
 	p := &c07Peer{ln: ln, scripts: map[string]c07Script{}}
+	if raw, err := net.Listen("tcp", "127.0.0.1:0"); err == nil {
+		p.tlsLn = tls.NewListener(raw, &tls.Config{Certificates: []tls.Certificate{c07SelfSigned(t)}, NextProtos: []string{"http/1.1"}})
+		go func() {
+			for {
+				c, err := p.tlsLn.Accept()
+				if err != nil {
+					return
+				}
+				p.mu.Lock()
+				p.conns = append(p.conns, c)
+				p.mu.Unlock()
+				go p.serve(c)
+			}
+		}()
+	}
 	go func() {
 		for {
 			c, err := ln.Accept()
@@ -447,6 +467,8 @@ func c07Options() []c07Opt {
 			r.SetOutputFile(filepath.Join(dir, "out-"+strconv.Itoa(i)))
 		}},
 		{"noautoread", func(c *Client) { c.DisableAutoReadResponse() }, nil},
+		// talks to the TLS listener, so that Alt-Svc headers are honoured (https, no forced version)
+		{"https-http3-enabled", func(c *Client) { c.EnableHTTP3().EnableInsecureSkipVerify() }, nil},
 		{"everything", func(c *Client) {
 			c.EnableAutoDecompress().SetAutoDecodeAllContentType().EnableDumpAllTo(io.Discard).SetCommonDigestAuth("u", "p").EnableTraceAll().SetCommonRetryCount(1)
 		}, func(r *Request, dir string, i int) {
@@ -479,7 +501,8 @@ func TestVerif_C07_h1hostile(t *testing.T) {
 		"grammar-directed HTTP/1.1 responses with faults (status line, duplicate/contradictory Content-Length and Transfer-Encoding, chunk sizes/extensions/trailers, bare LF, control bytes, long lines, 1xx prefixes, Content-Encoding/Content-Type/Alt-Svc/WWW-Authenticate/Location/Set-Cookie value fuzz, truncated/garbage compressed bodies) + byte mutation + cuts, x 10 option sets adding a processing stage; oracle: call returns resp-or-error within 15 s, no panic, no spin; non-trivial = at least one fault tag; distinct by (option, response bytes)")
 	peer := newC07Peer(t)
 	defer peer.closeAll()
-	base := "http://" + peer.ln.Addr().String()
+	plainBase := "http://" + peer.ln.Addr().String()
+	base := plainBase
 	dir := t.TempDir()
 	opts := c07Options()
 	clients := make([]*Client, len(opts))
@@ -509,6 +532,10 @@ func TestVerif_C07_h1hostile(t *testing.T) {
 	for i := 0; i < n; i++ {
 		resp, tags := c07Response(s, base)
 		oi := s.Rand().Intn(len(opts))
+		base := plainBase
+		if opts[oi].name == "https-http3-enabled" && peer.tlsLn != nil {
+			base = "https://" + peer.tlsLn.Addr().String()
+		}
 		method := verifh.Pick(s.Rand(), []int{0, 0, 0, 0, 1, 2, 2, 3})
 		path := "/" + strconv.Itoa(i)
 		peer.set(path, c07Script{data: resp})
@@ -607,7 +634,11 @@ func TestVerif_C07_h1hostile(t *testing.T) {
 		if opts[i].req != nil {
 			opts[i].req(r, dir, 1<<30)
 		}
-		rp, err := r.Get(base + "/default")
+		fbase := base
+		if opts[i].name == "https-http3-enabled" && peer.tlsLn != nil {
+			fbase = "https://" + peer.tlsLn.Addr().String()
+		}
+		rp, err := r.Get(fbase + "/default")
 		ok := err == nil && rp != nil && rp.StatusCode == 200
 		s.Observe("followup:"+opts[i].name, ok, "", true, "follow-up request on client "+opts[i].name, fmt.Sprintf("client unusable after hostile responses: %v", err))
 	}
